@@ -50,13 +50,17 @@ def allowed_ordering(r):
     a, b, e = r          # ranks of ask, bid, exec
     return (a < b and (e == a or e == b)) or (a == b == e)
 
+def price_fact(f):
+    if f is None: return False
+    if f[0] == 'val' and isinstance(f[2], bool) and f[1][0] in ('eq', 'lt'): return f[1][1] in (PA, PB, PE) and f[1][2] in (PA, PB, PE)
+    if f[0] in ('is', 'isnot') and f[1][0] == 'ordcmp': return f[1][1] in (PA, PB, PE) and f[1][2] in (PA, PB, PE)
+    return False
+
 def run(eng, tier):
     oks = eng.paths('execute', 'ok', V_)
     eng.ob(len(oks) > 0, PROP, 'floor-ok-path', V_, 'no successful match path found (fail closed)')
     guards = [
         ('executor', [('val', CONTAINS(F(CFG, 'executors'), SENDER), True)]),
-        ('ask-on-book', [('is', ('sload', 'ask', M(V_, 'ask_id'), 'load', 0), 'Ok')]),
-        ('bid-on-book', [('is', ('sload', 'bid', M(V_, 'bid_id'), 'load', 0), 'Ok')]),
         ('same-quote', [('val', EQ(F(BID, 'quote', 'denom'), F(ASK, 'quote')), True)]),
         ('size<=ask', [('val', LT(F(ASK, 'size'), SIZE), False)]),
         ('size<=bid-remaining', [('val', LT(REMB, SIZE), False)]),
@@ -76,6 +80,9 @@ def run(eng, tier):
                 ok = pos is not None and (fw is None or pos < fw)
                 eng.ob(ok, PROP, 'guard', '%s:%s' % (name, fact_key(f)), 'a match succeeds on a path that does not establish %s: %s' % (name, fact_key(f)),
                        detail=p.describe(), sample={'rule': 'guard', 'condition': name, 'fact': fact_key(f)})
+        for name, ns, idf in (('ask-on-book', 'ask', 'ask_id'), ('bid-on-book', 'bid', 'bid_id')):
+            okb = any(all(p.pos(f) is not None and (fw is None or p.pos(f) < fw) for f in alt) for alt in on_book_facts(ns, M(V_, idf)))
+            eng.ob(okb, PROP, 'guard', name, 'a match succeeds on a path that does not establish that the %s named by the request is on the book' % ns, detail=p.describe())
         # approval state: plain, or convertible and Ready
         cls = p.variant_of(CLASS)
         ok = cls == 'Basic' or (cls == 'Convertible' and p.variant_of(STATUS) == 'Ready')
@@ -106,12 +113,12 @@ def run(eng, tier):
     T = [
         ('not-executor', 'L', lambda e: isf(e, ('val', CONTAINS(F(CFG, 'executors'), SENDER), False))),
         ('funds-attached', 'L', lambda e: isf(e, ('val', ISEMPTY(FUNDS), False))),
-        ('ask-unknown', 'L', lambda e: isf(e, ('is', ('sload', 'ask', M(V_, 'ask_id'), 'load', 0), 'Err'))),
-        ('bid-unknown', 'L', lambda e: isf(e, ('is', ('sload', 'bid', M(V_, 'bid_id'), 'load', 0), 'Err'))),
+        ('ask-unknown', 'L', lambda e: is_not_on_book(e['fact'], 'ask', M(V_, 'ask_id'))),
+        ('bid-unknown', 'L', lambda e: is_not_on_book(e['fact'], 'bid', M(V_, 'bid_id'))),
         ('quote-mismatch', 'L', lambda e: isf(e, ('val', EQ(F(BID, 'quote', 'denom'), F(ASK, 'quote')), False))),
         ('request-price-unparsable', 'L', lambda e: isf(e, ('is', ('rcall', 'from_str', (PRICE,)), 'Err'))),
-        ('ask-above-bid', 'L', lambda e: isf(e, ('is', ('ordcmp', PA, PB), 'Greater'))),
-        ('exec-not-a-limit-price', 'L', lambda e: isf(e, ('val', EQ(PB, PE), False)) or isf(e, ('val', EQ(PA, PE), False))),
+        # any comparison among the three prices that dooms the request: which orderings are accepted/refused is decided exactly by R-order above
+        ('price-rule', 'L', lambda e: price_fact(e['fact'])),
         ('size-above-ask', 'L', lambda e: isf(e, ('val', LT(F(ASK, 'size'), SIZE), True))),
         ('size-above-bid-remaining', 'L', lambda e: isf(e, ('val', LT(REMB, SIZE), True))),
         ('exec-total-fractional', 'L', lambda e: isf(e, ('val', EQ(('fract', GROSS), I(0)), False))),
